@@ -191,6 +191,10 @@ def _run(ex: Executor, w: World, src: FunctionSource, contract: Contract, res: F
         st.assume(ctx.eval_bool(focus["assume"]))
     pre = st.fork()
     ex.pre_state = pre
+    split_terms = []
+    for sp in getattr(contract, "split_on", ()):
+        ctx = SpecCtx(ex, old=pre, cur=pre, names=dict(bind))
+        split_terms.append(ctx.eval_bool(sp))
     ex.frames.append([])
     ex.exec_block(fn.body, st)
     if focus is not None:
@@ -309,6 +313,9 @@ def _run(ex: Executor, w: World, src: FunctionSource, contract: Contract, res: F
                     ex.oblige(s2, ctx.eval_bool(es), f"{eid}.x{idx}", "post", fn, es)
                 if spec.get("frame", True):
                     _frame(ex, contract, pre, s2, bind, f"x{idx}.{ec.__name__}", fn, spec.get("modifies", None))
+    if split_terms:
+        for ob in ex.obligations:
+            ob.splits = split_terms
     # canary: 'False' on every final state must be refuted (some path is feasible)
     alive = [o.st for o in finals]
     if alive:
